@@ -31,12 +31,16 @@ def floors(tier):
 
 def plan(seed, tier):
     n = 10 if tier == "quick" else 70
-    return [{"id": f"res-{seed}-{i}", "seed": seed * 100003 + i} for i in range(n)]
+    cases = [{"id": f"res-{seed}-{i}", "seed": seed * 100003 + i} for i in range(n)]
+    # the whole API moved into a proto sub-package (next to a sibling sub-package): nothing about the property changes
+    cases += [{"id": f"res-sub-{seed}-{i}", "seed": seed * 100003 + 6000 + i, "subpkg": True} for i in range(2 if tier == "quick" else 7)]
+    return cases
 
 
 def build_api(case):
     rng = random.Random(case["seed"])
-    return apigen.respath_api(rng, "z%d" % (case["seed"] % 100000))
+    api = apigen.respath_api(rng, "z%d" % (case["seed"] % 100000))
+    return apigen.into_subpackage(api) if case.get("subpkg") else api
 
 
 VAR = re.compile(r"\{([A-Za-z0-9_]+)(=\*\*)?\}")
@@ -137,10 +141,16 @@ def run_case(case):
             vals = {}
             for m in VAR.finditer(pat):
                 vals[m.group(1)] = rand_value(rng, banned, allow_slash=bool(m.group(2)))
+                if m.group(2) and rng.random() < 0.4:
+                    # a ** value that repeats a collection id of its own pattern (drafts/books/final under .../books/{book=**})
+                    lits = [x for x in VAR.sub("/", pat).split("/") if x and x.isalnum()]
+                    if lits:
+                        vals[m.group(1)] = rand_value(rng, banned) + "/" + rng.choice(lits) + "/" + rand_value(rng, banned)
+                        it["dstar_value_repeats_a_literal"] = it.get("dstar_value_repeats_a_literal", 0) + 1
             path = build_ref(pat, vals)
             trials.append({"values": vals, "path": path, "non": nonmatches(rng, pat, path, vals)})
         it["trials"] = trials
-    script = {"root_pkg": apigen.lib_root(api.info, api.options), "items": items}
+    script = {"root_pkg": apigen.runner_root(api), "items": items}
     ev, rc, err = pipeline.run_runner("checks.c19", script, lib, timeout=200)
     if ev is None or "runner_crash" in ev or "library_import_error" in ev:
         return pipeline.runner_failed_result(ev, rc, err, api)
